@@ -223,6 +223,12 @@ def check_readback(rep, repo):
     except Unknown as u:
         rep.inconclusive(rule, f.where, 'read-back function is inside the interpreted fragment', got=str(u))
         rv = None
+    if rv is not None and selection(rv) is None:
+        # a read-back with a mode parameter: judged with the arguments Model.get_results passes
+        from ..shapes import returns_as_called
+        called = [r_ for r_ in returns_as_called(repo, f, lp.MODEL) if selection(r_) is not None]
+        if called:
+            rv = called[0]
     if rv is not None:
         sel = selection(rv)
         if sel is None:
